@@ -44,7 +44,7 @@ MANIFEST = dict(
 )
 
 NEGS = ["ConfigDecode_neg_unused.cfg", "ConfigDecode_neg_novalidate.cfg", "ConfigDecode_neg_weak.cfg",
-        "ConfigDecode_neg_unset.cfg", "ConfigDecode_neg_discard.cfg"]
+        "ConfigDecode_neg_unset.cfg", "ConfigDecode_neg_discard.cfg", "ConfigDecode_neg_stdin.cfg"]
 INVS = ["NoPanic", "Conforms", "TStage", "TStrict", "TTyped", "TConstrained", "TPlaceholders", "TNoSpuriousError", "TValues"]
 
 
@@ -76,7 +76,13 @@ def case_sig(row, variants):
     if c["kind"] in ("range", "phrange"):
         s += " class=%d" % c["i"]
     comp = component_of(c, variants)
-    return "%s comp=%s via=%s shape=%s reg=%s" % (s, comp, row["via"], row["shape"], row["reg"])
+    return "%s comp=%s via=%s shape=%s reg=%s%s" % (s, comp, row["via"], row["shape"], row["reg"], channel_of(row))
+
+
+def channel_of(row):
+    """' channel=stdin' ... for a cli run through another input channel than a .yaml file named on the command line."""
+    m = row.get("mvia", "")
+    return " channel=%s" % m[4:] if m.startswith("cli-") else ""
 
 
 def leaf_label(vname, p, variants):
@@ -123,7 +129,7 @@ def validate(v, obs_path, rows, variants, points_path, workers=8):
             # the failing input class is the wrong leaf; the mutation only matters when it is the mutated leaf itself
             sig = "inv=TValues %s base=%s via=%s reg=%s leaf=%s" % (
                 ("kind=%s src=%s" % (c["kind"], c["src"] or "-")) if own else "kind=any", c["base"], row["via"], row["reg"],
-                ",".join(labels)[:300])
+                ",".join(labels)[:300]) + channel_of(row)
             detail = " decoded: " + json.dumps({path_s(leaves[j]["p"]): row["got"][j] for j in bad})
         if sig in seen:
             continue
@@ -131,7 +137,7 @@ def validate(v, obs_path, rows, variants, points_path, workers=8):
         v.violation(sig, "case %s (variant %s, base %s) via %s/%s/%s: real decoding gives %s%s%s; violates %s of TraceConfigDecode" % (
             json.dumps({k: c[k] for k in ("kind", "p", "i", "src", "set", "x")}) + " " + json.dumps(row.get("_delta", {}).get("set", []))[:200], c["v"], c["base"], row["via"], row["shape"], row["reg"],
             row["out"], (" (%s)" % row["err"][:160]) if row["err"] else "", detail, inv),
-            replay_obj={"invariant": inv, "line": {k: row[k] for k in ("c", "via", "shape", "reg", "out", "got", "err")},
+            replay_obj={"invariant": inv, "line": {k: row[k] for k in ("c", "via", "mvia", "stage", "shape", "reg", "out", "got", "err")},
                         "delta": row.get("_delta"), "phval": row.get("_phval"), "adv": row.get("_adv")},
             replay_name="confdecode_%d_%s.json" % (ln, inv))
     return tr
@@ -150,7 +156,7 @@ def name_bad_leaves(rows, lines):
         return
     d = vlib.scratch()
     some = os.path.join(d, "rejected.ndjson")
-    vlib.write_ndjson(some, [{k: rows[ln - 1][k] for k in ("c", "via", "shape", "reg", "out", "got", "err")} for ln in lines])
+    vlib.write_ndjson(some, [{k: rows[ln - 1][k] for k in ("c", "via", "mvia", "stage", "shape", "reg", "out", "got", "err")} for ln in lines])
     r = vlib.tlc("TraceConfigDecode", "TraceConfigDecode_leaves.cfg", env={"VERIF_TRACE": some}, workers=1, heap="2g",
                  deadlock=False, timeout=900)
     for ln_ in r.out.splitlines():
@@ -317,7 +323,8 @@ def run_driver_split(b, variants_p, cases, obs, stride, d, parts=4):
         def job(pin=pin, pout=pout):
             try:
                 vlib.run_driver(b, ["confdecode", "-variants", variants_p, "-in", pin, "-out", pout,
-                                    "-cli-stride", str(stride), "-real-stride", str(stride)], timeout=1800)
+                                    "-cli-stride", str(stride), "-real-stride", str(stride),
+                                    "-channels-per-case", "0" if stride == 1 else "1"], timeout=1800)
             except BaseException as ex:
                 errs.append(ex)
         t = threading.Thread(target=job)
@@ -399,6 +406,8 @@ def run(tier, v):
         if k not in by_case:
             raise vlib.MachineryError("driver reported a case TLC did not generate: %s" % k)
         r_["_delta"], r_["_phval"], r_["_adv"] = by_case[k]["delta"], by_case[k]["phval"], by_case[k]["adv"]
+        if r_["mvia"] not in ["decode", "cli"] + by_case[k]["vias"]:
+            raise vlib.MachineryError("driver used a channel TLC did not list for the case: %s %s" % (r_["mvia"], k))
         if r_["reg"] == "rec" and r_["via"] == "decode":
             n_rec[k] = n_rec.get(k, 0) + 1
     if len(n_rec) != len(cases) or any(x != 2 for x in n_rec.values()):
@@ -424,6 +433,10 @@ def run(tier, v):
     kinds = {}
     for c in cases:
         kinds[c["c"]["kind"]] = kinds.get(c["c"]["kind"], 0) + 1
+    channels = {}
+    for r_ in rows:
+        if r_["via"] == "cli":
+            channels[r_["mvia"]] = channels.get(r_["mvia"], 0) + 1
     outcomes = {}
     for r_ in rows:
         outcomes[r_["via"] + "/" + r_["reg"] + "/" + r_["out"]] = outcomes.get(r_["via"] + "/" + r_["reg"] + "/" + r_["out"], 0) + 1
@@ -438,7 +451,7 @@ def run(tier, v):
         "rule": "one case per (variant, base, mutation) as enumerated by CasesOf in ConfigDecode.tla, each decoded as map[string]any and "
                 "map[any]any with the recording registry; every %d-th also through the CLI reader and (non-placeholder, V1/V2) with the real "
                 "constructors; distinct_nontrivial = distinct abstract cases that carry a mutation (kind # none)" % stride,
-        "cases_by_kind": kinds, "outcomes": outcomes,
+        "cases_by_kind": kinds, "outcomes": outcomes, "cli_runs_by_input_channel": channels,
         "pairs_of_mutations": {"pairs": conc["pairs"]["pairs"], "decodes": conc["pairs"]["decodes"]},
         "overlapping_decodes": {"goroutines": conc["g"], "passes": conc["rounds"],
                                 "sections": len([r_ for r_ in conc["rows"] if r_["kind"] == "section"]),
@@ -468,11 +481,13 @@ def replay(path, v):
         return None
     line = obj["line"]
     one = os.path.join(d, "one_case.ndjson")
-    vlib.write_ndjson(one, [{"c": line["c"], "delta": obj["delta"], "phval": obj["phval"], "adv": obj.get("adv") or {"src": "", "eol": "lf", "lines": [], "envs": [], "req": ""}}])
+    chans = [line["mvia"]] if line.get("mvia", "").startswith("cli-") else []
+    vlib.write_ndjson(one, [{"c": line["c"], "delta": obj["delta"], "phval": obj["phval"], "vias": chans,
+                             "adv": obj.get("adv") or {"src": "", "eol": "lf", "lines": [], "envs": [], "req": ""}}])
     obs = os.path.join(d, "obs1.ndjson")
-    vlib.run_driver(b, ["confdecode", "-variants", variants_p, "-in", one, "-out", obs])
+    vlib.run_driver(b, ["confdecode", "-variants", variants_p, "-in", one, "-out", obs, "-channels-per-case", "0"])
     rows = vlib.read_ndjson(obs)
     for r_ in rows:
-        print("observed now via %s/%s/%s: %s %s" % (r_["via"], r_["shape"], r_["reg"], r_["out"], r_["err"][:200]))
+        print("observed now via %s/%s/%s: %s %s" % (r_["mvia"], r_["shape"], r_["reg"], r_["out"], r_["err"][:200]))
     validate(v, obs, rows, variants, points_p, workers=1)
     return None
